@@ -35,6 +35,10 @@ REAL_MODULES_THOROUGH = REAL_MODULES_QUICK + [
 ]
 
 SAMPLE_PROGRAM = '''
+from collections.abc import Callable
+
+from rogw.tranp.compatible.python.embed import Embed
+
 class Base:
 	n: int
 	def __init__(self, n: int) -> None:
@@ -78,6 +82,65 @@ def table(d: dict[str, int]) -> list[str]:
 def pick(a: int, b: int) -> int:
 	f = lambda x: x + a
 	return f(b) if a < b else a & b | 1
+
+class Res:
+	def __enter__(self) -> 'Res':
+		return self
+
+	def __exit__(self, *args: int) -> None: ...
+
+def deco(n: int = 0) -> int:
+	return n
+
+@Embed.struct
+@Embed.meta('k', 'v')
+@Embed.alias('MixAlias', prefix=False)
+class Mix(Base, Res):
+	def __init__(self) -> None:
+		super().__init__(0)
+
+	@Embed.public
+	@Embed.allow_override
+	def both(self, p: int, q: int = 2) -> int:
+		g = lambda x, y, z: x + y + z
+		def inner(i: int, j: int) -> int:
+			return i + j
+		return g(p, q, 1) + inner(p, q)
+
+	@classmethod
+	@Embed.public
+	def make(cls, a: int, b: int) -> int:
+		return a + b
+
+@Embed.public
+@Embed.pure
+def apply2(fn: Callable[[int, int], int], x: int, y: int) -> int:
+	return fn(x, y)
+
+def many(a: int, b: int = 1, c: int = 2) -> dict[str, int]:
+	with Res() as r1, Res() as r2, Res() as r3:
+		a = a + 1
+		b = b + 0
+	try:
+		b = b + 1
+		c = c + 0
+	except RuntimeError as e1:
+		b = 0
+		c = 0
+	except Exception as e2:
+		b = 1
+	if a > 3:
+		c = 0
+	elif a > 2:
+		c = 1
+	elif a > 1:
+		c = 2
+	elif a > 0:
+		c = 3
+	pairs = [x * y for x in [a, b] for y in [b, c] if x > y]
+	t = (a, b, c)
+	u = total([a, b, c], limit=c)
+	return {'a': a, 'b': b, 'c': len(pairs) + t[0] + u}
 '''
 
 
